@@ -205,6 +205,9 @@ func (g *Gen) mine(trunc int) {
 	} else if g.r.Chance(1, 6) {
 		line += " fresh=1"
 	}
+	if g.r.Chance(1, 6) {
+		line += " pow=1" // the consensus re-stamps the block in CalculateBlock (new nonce, id, signature)
+	}
 	g.emit(line)
 }
 
